@@ -522,7 +522,7 @@ fn gen_c02frac(p: &mut Prng, id: String) -> FwCase {
 /// scratch arrays indexed by machine or state only show beyond these sizes.
 fn gen_wide(p: &mut Prng, id: String) -> FwCase {
     use enum_map::enum_map;
-    let n = *p.pick(&[9usize, 17, 33, 65, 66, 130, 257]);
+    let n = *p.pick(&[9usize, 17, 33, 65, 66, 130, 257, 300]);
     let mut cfg = GenCfg::default();
     cfg.dist = DistMode::Const;
     cfg.max_states = 2;
@@ -559,8 +559,19 @@ fn gen_wide(p: &mut Prng, id: String) -> FwCase {
         states.push(st);
     }
     let long = Machine::new(u64::MAX, 0.0, u64::MAX, 0.0, states).expect("wide long machine");
-    let pos = p.below(n as u64) as usize;
+    let pos = p.below(n as u64 - 1) as usize;
     machines[pos] = long;
+    // the last machine (index 8, 16, 32, 64, 65, 129, 256, 299) is a plain signaller: it signals on every
+    // NormalRecv and pads when signalled, so that the signal slot has to remember a high machine index
+    {
+        let mut s0 = State::new(enum_map! {
+            Event::NormalRecv => vec![Trans(STATE_SIGNAL, 1.0)],
+            Event::Signal => vec![Trans(0, 1.0)],
+            _ => vec![],
+        });
+        s0.action = Some(Action::SendPadding { bypass: false, replace: false, timeout: konst(7.0), limit: None });
+        machines[n - 1] = Machine::new(u64::MAX, 0.0, 0, 0.0, vec![s0]).expect("wide signaller");
+    }
     // history: enough NormalSent to climb the chain, interleaved with completions for high machine ids
     let mut calls = Vec::new();
     let mut t: i128 = 0;
